@@ -3,6 +3,7 @@ import CookModel.Lemmas.DiagExactComp
 import CookModel.Lemmas.RoundtripStep
 import CookModel.Lemmas.RoundtripShort
 import CookModel.Lemmas.DiagPlaceFam
+import CookModel.Lemmas.DiagPlaceInst
 /-
   C07, arbitrary placement: `invalid-single-word-name` as a placement piece (`c07s_` prefix, wave 10).  A marker
   `@` / `#` / `~` that starts NO component — no `{` before the next marker / the end of the block, and the token after
@@ -284,5 +285,127 @@ theorem c07s_timer_short_pieceAt (cs : CharSpec) (e : Ext) (tmS : Tok) (WS restS
     (c07s_head_pred hpost.head_kind (fun k => wordKind k = false) hR)
     (by rw [noBraceFirst_kinds tpost restS hpost.kinds]; exact hnb)).mono
     (fun evs he => ⟨tm, W, rfl, k2, he⟩)
+
+/-! ### single-word ingredient / cookware with plain modifier tokens (`@&&salt`, `#@pot`) -/
+
+/-- the cut of a single-word component `marker ms W` with plain modifier tokens, not followed by `(` -/
+theorem c07s_cut_short_mods (k : TK) (s : BP α) (A : List Tok) (tm : Tok) (ms W rest : List Tok) (hk : tm.kind = k)
+    (ht : s.toks = A ++ ((tm :: (ms ++ W)) ++ rest)) (hc : s.cur = A.length)
+    (hm : (s.ext.has Gen.EXT_COMPONENT_MODIFIERS = false ∧ ms = []) ∨
+      (s.ext.has Gen.EXT_COMPONENT_MODIFIERS = true ∧ ∀ m ∈ ms, modKind m.kind = true))
+    (hW : ∀ t ∈ W, wordKind t.kind = true) (hne : W ≠ [])
+    (hR : ∀ t, rest.head? = some t → wordKind t.kind = false) (hnb : noBraceFirst rest = true)
+    (hnp : ∀ t, rest.head? = some t → t.kind ≠ .openParen) :
+    Cut k s ms ⟨W, none, none⟩ { s with cur := A.length + 1 } { s with cur := A.length + 1 + ms.length }
+      { s with cur := A.length + (tm :: (ms ++ W)).length } ∧
+    noteP ({ s with cur := A.length + (tm :: (ms ++ W)).length } : BP α) =
+      (none, { s with cur := A.length + (tm :: (ms ++ W)).length }) := by
+  have e1 : s.toks = A ++ tm :: (ms ++ (W ++ rest)) := by rw [ht]; simp
+  have h1 := consumeK_split_some k s A tm _ e1 hc hk
+  obtain ⟨w, ws, hWc⟩ : ∃ w ws, W = w :: ws := by
+    cases W with
+    | nil => exact absurd rfl hne
+    | cons w ws => exact ⟨w, ws, rfl⟩
+  have hw0 := hW w (by rw [hWc]; simp)
+  have hwm : modKind w.kind = false ∧ w.kind ≠ .openParen := by
+    cases hk' : w.kind <;> simp [wordKind, hk', modKind] at hw0 ⊢
+  have h2 : modifiersP ({ s with cur := A.length + 1 } : BP α) = (ms, { s with cur := A.length + 1 + ms.length }) := by
+    rcases hm with ⟨hoff, hms⟩ | ⟨hon, hms⟩
+    · subst hms
+      rw [modifiersP_off ({ s with cur := A.length + 1 } : BP α) hoff]; rfl
+    · have := modifiersP_on ({ s with cur := A.length + 1 } : BP α) hon (A ++ [tm]) ms w (ws ++ rest)
+        (by show s.toks = _; rw [e1, hWc]; simp) (by simp) hms hwm.1 hwm.2
+      rw [this]
+      exact congrArg (fun c => (ms, ({ s with cur := c } : BP α))) (by simp)
+  have h3 := compBody_short ({ s with cur := A.length + 1 + ms.length } : BP α) (A ++ tm :: ms) W rest
+    (by show s.toks = _; rw [e1]; simp) (by simp; omega) hW hne hR hnb
+  have hlen : (A ++ tm :: ms).length + W.length = A.length + (tm :: (ms ++ W)).length := by
+    simp only [List.length_append, List.length_cons]; omega
+  rw [hlen] at h3
+  refine ⟨⟨⟨tm, h1⟩, h2, h3⟩, ?_⟩
+  exact noteP_none _ (A ++ (tm :: (ms ++ W))) rest (by show s.toks = _; rw [ht]; simp) (by simp) hnp
+
+theorem c07s_no_or (W : List Tok) (hW : ∀ t ∈ W, wordKind t.kind = true) : ∀ t ∈ W, t.kind ≠ .or := by
+  intro t ht
+  have := hW t ht
+  cases hk : t.kind <;> simp [wordKind, hk] at this ⊢
+
+/-- **a single-word ingredient with modifier tokens, wherever it stands** (`@&&salt`, `@?-?x`): exactly one
+    `duplicate-modifier` per modifier token repeating an earlier one, then the ingredient named `W` with the
+    accumulated flags -/
+theorem c07s_ingredient_short_piece (T A rest : List Tok) (cs : CharSpec) (e : Ext) (tm : Tok) (ms W : List Tok)
+    (hT : T = A ++ ((tm :: (ms ++ W)) ++ rest)) (hw : WF T) (hk : tm.kind = .at)
+    (hm : (e.has Gen.EXT_COMPONENT_MODIFIERS = false ∧ ms = []) ∨
+      (e.has Gen.EXT_COMPONENT_MODIFIERS = true ∧ ∀ m ∈ ms, modKind m.kind = true)) (hs : SimpleMods ms)
+    (hW : ∀ t ∈ W, wordKind t.kind = true) (hne : W ≠ [])
+    (hR : ∀ t, rest.head? = some t → wordKind t.kind = false) (hnb : noBraceFirst rest = true)
+    (hnp : ∀ t, rest.head? = some t → t.kind ≠ .openParen)
+    (hname : (buildText (offAt T (A.length + 1 + ms.length)) W).isTextEmpty cs = false) :
+    PlPieceAt (α := α) T cs e A ⟨tm :: (ms ++ W), fun evs =>
+      evs = List.replicate (foldMods Modifiers.empty ms).2
+          (.error ⟨.error, .parse, "duplicate-modifier", [tokensSpan ms]⟩) ++
+        [.ingredient ⟨⟨simpleFlags ms (offAt T (A.length + 1)), none,
+          buildText (offAt T (A.length + 1 + ms.length)) W, none, none, none⟩,
+        ⟨offAt T A.length, offAt T (A.length + (tm :: (ms ++ W)).length)⟩⟩]⟩ := by
+  apply c07p_piece_of_ingredient T A _ rest cs e hT hw tm _ rfl hk
+  intro s h1 h2 h3 h4 h5
+  subst h1 h2 h3
+  obtain ⟨hcut, hnote⟩ := c07s_cut_short_mods .at s A tm ms W rest hk hT h5 hm hW hne hR hnb hnp
+  have hrun : ingredientP s = ingredientTail (offAt s.toks A.length)
+      (offAt s.toks (A.length + (tm :: (ms ++ W)).length)) (offAt s.toks (A.length + 1))
+      (offAt s.toks (A.length + 1 + ms.length)) ms ⟨W, none, none⟩ none
+      { s with cur := A.length + (tm :: (ms ++ W)).length } := by
+    rw [ingredientP_cut hcut hnote]
+    simp only [curOff, h5]
+  have ht := ingredientTail_noqty (α := α) (offAt s.toks A.length)
+    (offAt s.toks (A.length + (tm :: (ms ++ W)).length))
+    (offAt s.toks (A.length + 1)) (offAt s.toks (A.length + 1 + ms.length)) ms ⟨W, none, none⟩ none
+    ({ s with cur := A.length + (tm :: (ms ++ W)).length } : BP α) [] _ none
+    (parseAlias_quiet' "ingredient" W _ _ (Or.inr (c07s_no_or W hW))) hname rfl hs
+  unfold Sat at ht
+  rw [← hrun] at ht
+  obtain ⟨hpu, hr⟩ := ht
+  refine ⟨_, _, hr, hpu.cast (by simp [dupEvs, dupModEv]), ?_, rfl⟩
+  rw [hrun]
+  exact (c07p_indep_fields (Indep.ingredientTail ..) _).1
+
+/-- **a single-word cookware item with modifier tokens, wherever it stands** (`#@pot`, `#&&pot`): one
+    `duplicate-modifier` per repeated modifier token, `cookware-recipe-modifier` on the first `@` iff there is one,
+    then the item named `W` -/
+theorem c07s_cookware_short_piece (T A rest : List Tok) (cs : CharSpec) (e : Ext) (tm : Tok) (ms W : List Tok)
+    (hT : T = A ++ ((tm :: (ms ++ W)) ++ rest)) (hw : WF T) (hk : tm.kind = .hash)
+    (hm : (e.has Gen.EXT_COMPONENT_MODIFIERS = false ∧ ms = []) ∨
+      (e.has Gen.EXT_COMPONENT_MODIFIERS = true ∧ ∀ m ∈ ms, modKind m.kind = true)) (hs : SimpleMods ms)
+    (hW : ∀ t ∈ W, wordKind t.kind = true) (hne : W ≠ [])
+    (hR : ∀ t, rest.head? = some t → wordKind t.kind = false) (hnb : noBraceFirst rest = true)
+    (hnp : ∀ t, rest.head? = some t → t.kind ≠ .openParen)
+    (hname : (buildText (offAt T (A.length + 1 + ms.length)) W).isTextEmpty cs = false) :
+    PlPieceAt (α := α) T cs e A ⟨tm :: (ms ++ W), fun evs =>
+      evs = List.replicate (foldMods Modifiers.empty ms).2
+          (.error ⟨.error, .parse, "duplicate-modifier", [tokensSpan ms]⟩) ++ recipeModEvs ms ++
+        [.cookware ⟨⟨simpleFlags ms (offAt T (A.length + 1)),
+          buildText (offAt T (A.length + 1 + ms.length)) W, none, none, none⟩,
+        ⟨offAt T A.length, offAt T (A.length + (tm :: (ms ++ W)).length)⟩⟩]⟩ := by
+  apply c07p_piece_of_cookware T A _ rest cs e hT hw tm _ rfl hk
+  intro s h1 h2 h3 h4 h5
+  subst h1 h2 h3
+  obtain ⟨hcut, hnote⟩ := c07s_cut_short_mods .hash s A tm ms W rest hk hT h5 hm hW hne hR hnb hnp
+  have hrun : cookwareP s = cookwareTail (offAt s.toks A.length)
+      (offAt s.toks (A.length + (tm :: (ms ++ W)).length)) (offAt s.toks (A.length + 1))
+      (offAt s.toks (A.length + 1 + ms.length)) ms ⟨W, none, none⟩ none
+      { s with cur := A.length + (tm :: (ms ++ W)).length } := by
+    rw [cookwareP_cut hcut hnote]
+    simp only [curOff, h5]
+  have ht := cookwareTail_noqty (α := α) (offAt s.toks A.length)
+    (offAt s.toks (A.length + (tm :: (ms ++ W)).length))
+    (offAt s.toks (A.length + 1)) (offAt s.toks (A.length + 1 + ms.length)) ms ⟨W, none, none⟩ none
+    ({ s with cur := A.length + (tm :: (ms ++ W)).length } : BP α) [] _ none
+    (parseAlias_quiet' "cookware" W _ _ (Or.inr (c07s_no_or W hW))) hname rfl hs
+  unfold Sat at ht
+  rw [← hrun] at ht
+  obtain ⟨hpu, hr⟩ := ht
+  refine ⟨_, _, hr, hpu.cast (by simp [dupEvs, dupModEv]), ?_, rfl⟩
+  rw [hrun]
+  exact (c07p_indep_fields (Indep.cookwareTail ..) _).1
 
 end Cook
